@@ -1,5 +1,6 @@
 """Rule building blocks shared by the per-property checks."""
 import ast
+import re
 
 from .. import pattern as PT
 from ..loader import Inconclusive, AnchorMissing, where, norm, dotted_of
@@ -133,6 +134,13 @@ def plain_term(t):
                 continue
             return False
     return True
+
+
+def module_state_managed(site_text, labels):
+    """the written place is the module-level object itself, by its own name (`_cache[key] = v`, `_cache.clear()`): the function keeps a table at module
+    level. Anything else - a store through a local name that happens to alias an array held there - is a write *into* shared storage"""
+    head_ = re.split(r"[\[.(]", site_text.strip(), 1)[0].strip()
+    return any(isinstance(l_, tuple) and len(l_) > 1 and str(l_[1]).rsplit(".", 1)[-1] == head_ for l_ in labels)
 
 
 def inline_helpers(prog, module, keep=(), also=()):
@@ -757,7 +765,7 @@ def no_foreign_writes(rep, prog, qname, rule="OWN"):
                 l = sorted(owned, key=str)[0]
                 what = {"P": "parameter", "PE": "an element of parameter", "S": "self attribute", "SE": "an element of self attribute", "D": "the default of",
                         "G": "module-level object", "U": "the array returned by the user's callable"}[OW.strip_maybe(l)[0]]
-                if all(OW.strip_maybe(l_)[0] == "G" for l_ in owned):
+                if all(OW.strip_maybe(l_)[0] == "G" for l_ in owned) and module_state_managed(w.site[2], owned):
                     # state kept at module level (a cache, a registry): it is written, which makes results *able* to depend on earlier calls; whether they
                     # do (a memo table with a sound key does not) is not something the ownership domain decides
                     rep.unk(rule + ".writes", {"file": w.site[3], "line": w.site[1], "function": w.site[0], "construct": w.site[2]},
